@@ -388,7 +388,14 @@ def run(tier):
     for k, cell in gt["stale"]:
         rp.cov["notes"].append("stale known finding (cell no longer exists): " + k["key"])
     race_hits = {}
-    for cell, pairs in sorted(bad_cells.items()):
+    # one report per package-level variable (its cells are listed), at most 4 targeted searches
+    roots = {}
+    for cell in sorted(bad_cells):
+        roots.setdefault(".".join(cell.split(".")[:2]), []).append(cell)
+    searches = 0
+    for root, cells_of_root in sorted(roots.items()):
+        cell = cells_of_root[0]
+        pairs = bad_cells[cell]
         a, b = pairs[0]
         wa = [x for x in gt["where"][a]][:3]
         wb = [x for x in gt["where"][b]][:3]
@@ -397,13 +404,14 @@ def run(tier):
                 "type": gt["info"].get(cell, {}).get("type"),
                 "access_1": {"write": a[1], "kind": a[2], "held": list(a[3]), "once": a[4], "sites": [{"func": x["func"], "pos": x["pos"]} for x in wa]},
                 "access_2": {"write": b[1], "kind": b[2], "held": list(b[3]), "once": b[4], "sites": [{"func": x["func"], "pos": x["pos"]} for x in wb]},
-                "unprotected_pairs": len(pairs)}
+                "unprotected_pairs": sum(len(bad_cells[c]) for c in cells_of_root), "variable": root, "cells": cells_of_root[:40]}
         # aim the race detector at it: hammer the operations that reach the package
         ops = PKG_OPS.get(pkgc)
-        files = {x["pos"].split(":")[0] for x in wa + wb}
+        files = {x["pos"].split(":")[0] for c_ in cells_of_root for pr in bad_cells[c_][:3] for k_ in pr for x in gt["where"][k_][:3]}
         found = None
         inputs_t = workload(random.Random(common.seed()), "quick")[:30]
-        for n in (4, nc):
+        searches += 1
+        for n in ((4, nc) if searches <= 4 else ()):
             rc, res, races, err = run_mix(n, 300, common.seed() + n, inputs_t, ops=ops)
             evals += 1
             hit = [r for r in races if any(w.split(":")[0] in files for w in r["where"])]
@@ -418,7 +426,7 @@ def run(tier):
         else:
             base["explanation"] = ("package-level state %s is accessed without a common mutex / Once / atomic operation (%s at %s vs %s at %s): the footprint instance lemma no longer holds" % (
                 cell, "write" if a[1] else "read", wa[0]["pos"] if wa else "?", "write" if b[1] else "read", wb[0]["pos"] if wb else "?"))
-        rp.violation(base, "footprint_" + re.sub(r"\W+", "_", cell), no_input=not found)
+        rp.violation(base, "footprint_" + re.sub(r"\W+", "_", root if len(cells_of_root) > 1 else cell), no_input=not found)
     if not ok_inst and not defects and not bad_cells:
         rp.violation({"kind": "proof", "theorem": "Inst_C10", "log": logs["inst"][-3000:]}, "inst_c10", no_input=True)
     if ok_inst and not ok_props:
@@ -493,6 +501,9 @@ def run(tier):
             seen.add(sig)
             if r["where"] and r["where"][0].split(":")[0] in race_files:
                 continue   # already reported with the footprint table entry
+            if sum(1 for v in rp.violations if "/race_" in v) >= 5:
+                rp.cov["notes"].append("further race reports suppressed (5 distinct locations already reported)")
+                break
             hit = [x for x in kf if x["status"] == "known" and x["signature"].get("kind") == "race" and any(x["signature"].get("where", "#") in w for w in r["where"])]
             if hit:
                 rp.known(hit[0]["key"], hit[0]["what"])
